@@ -119,6 +119,13 @@ def get_value_source(
 
     # 3. Bound value (from graph.bind()) - check both graph and GraphNode
     if param in graph.inputs.bound:
+        # graph.inputs.bound also lists bindings lifted from nested graphs (first one wins per name).
+        # A nested graph that binds this input itself keeps its own binding unless the outer graph
+        # binds the name explicitly.
+        if isinstance(node, GraphNode) and param not in graph._bound:
+            original_param = node._resolve_original_input_name(param)
+            if original_param in node._graph.inputs.bound:
+                return (ValueSource.BOUND, node._graph.inputs.bound[original_param])
         return (ValueSource.BOUND, graph.inputs.bound[param])
 
     # 3b. For GraphNode: check if inner graph has it bound
